@@ -495,7 +495,7 @@ def r7(cx, rec):
             ok = False
             for sb in f.switches():
                 ce, ts, o = f.cond(sb)
-                x = mirq.init_of(ce) if ce[0] == 'mvar' else ce
+                x = C.through_helper(ce)
                 if x[0] == 'call' and x[4].get('name') == 'all':
                     clo = [y for y in walk(x) if y[0] == 'closure']
                     src = access_path(x[2][0]) or ''
@@ -509,7 +509,7 @@ def r7(cx, rec):
                                 if r[4].get('name') == 'eq' and any(y[0] == 'agg' and y[3] == 'Have' for y in walk(r)):
                                     pred_ok = True
                     tt, ff = f.bool_edges(sb)
-                    if pred_ok and 'status' in src and (bb in f.only_via_edge((sb, tt))):
+                    if pred_ok and V.is_status_seq(f, x[2][0][2][0] if x[2][0][0] == 'call' and x[2][0][2] else x[2][0]) and (bb in f.only_via_edge((sb, tt))):
                         ok = True
                         rec.site(f, bb, 'extractor started under all(%s == Have)' % src)
             rec.need(ok, 'extract-without-all-have', f, bb,
